@@ -1662,7 +1662,12 @@ impl FixWord {
 
         // TeX.2021.571 (store_scaled)
         let [a, b, c, d] = self.0.to_be_bytes();
-        assert!(a == 0 || a == 255);
+        if a != 0 && a != 255 {
+            // The number is not less than 16 in magnitude. Such numbers are not valid
+            // in .tfm files: TeX refuses to load the font (TeX.2021.571) and both
+            // TFtoPL (TFtoPL.2014.60) and PLtoTF (PLtoTF.2014.128) replace them by zero.
+            return common::Scaled::ZERO;
+        }
         let sw = (((z * (d as i32)) / 0o400 + (z * (c as i32))) / 0o400 + z * (b as i32)) / beta;
         if a == 255 {
             // In this case self < 0.
